@@ -3839,22 +3839,20 @@ impl Lexer<'_> {
                     self.cursor.advance();
                     self.add_line();
                 }
-                Some(';') | None => {
-                    let rem_text = self.cursor.as_str();
-
-                    if rem_text.len() < ending_len {
-                        // Not enough characters left to match the ending
-                        // Emit error, but assume that we found the ending
-                        self.emit_error(ErrorKind::UnterminatedDatalines);
-                        break;
-                    }
-
-                    if self.cursor.as_str().get(..ending_len).unwrap_or("") == ending {
+                Some(';') => {
+                    if self.cursor.as_str().starts_with(ending) {
                         // Found the ending. Do not consume as it will be a separate token
                         break;
                     }
 
+                    // Not the ending (possible for `;` inside datalines4), it is data
                     self.cursor.advance();
+                }
+                None => {
+                    // EOF without the ending. Emit error, but assume that we found the ending.
+                    // The virtual ending token is emitted below
+                    self.emit_error(ErrorKind::UnterminatedDatalines);
+                    break;
                 }
                 _ => {
                     self.cursor.advance();
@@ -3872,9 +3870,11 @@ impl Lexer<'_> {
         // Start the new token
         self.start_token();
 
-        // Consume the ending
-        #[allow(clippy::cast_possible_truncation)]
-        self.cursor.advance_by(ending_len as u32);
+        // Consume the ending, unless we've hit EOF without it
+        if self.cursor.peek().is_some() {
+            #[allow(clippy::cast_possible_truncation)]
+            self.cursor.advance_by(ending_len as u32);
+        }
 
         // Add the datalines end token
         self.emit_token(TokenChannel::DEFAULT, TokenType::SEMI, Payload::None);
